@@ -161,7 +161,7 @@ def recvWrites (s : Core) (p : Packet) : Core × Res :=
   if p.relay == s.name then
     if !authenticate s p.src p.dst p.port then (s, .err .unauthorized)
     else match s.clients p.dst with
-      | none => (s, .err .clientNotFound)
+      | none => (s, .err .unauthorized)     -- unknown destination: answered with an error ack too
       | some _ =>
         let s := s.setCommit p.key (H p.data)
         (s.emit (pktEvent "send_packet" p), .ok)
